@@ -975,4 +975,3 @@ func c19r12(rc *core.RC) {
 		rc.Unknown(key, fd.Pos(), "no call of Unmarshal found in buildString")
 	}
 }
-
